@@ -273,6 +273,67 @@ def seq2_objects(o1: int, s1: int, m1: int, o2: int, s2: int, m2: int) -> bool:
     return ok
 
 
+# ---- operations that name several selectors and/or several markings at once
+def apply_multi(o, pairs, op, sels, marks):
+    """one multi-selector / multi-marking operation on the real functions and on the set model; returns (new object, new pairs, ok)"""
+    had_any = bool(o.get("granular_markings"))
+    req = {(s, m) for s in sels for m in marks}
+    on_sel = {p for p in pairs if p[0] in sels}
+    try:
+        if op == 0:
+            n, exp, must_raise = markings.add_markings(o, list(marks), list(sels)), pairs | req, False
+        elif op == 1:
+            n = markings.remove_markings(o, list(marks), list(sels))
+            exp, must_raise = (pairs, False) if not had_any else (pairs - req, not (req & pairs))
+        elif op == 2:
+            n = markings.clear_markings(o, list(sels))
+            exp, must_raise = (pairs, False) if not had_any else (pairs - on_sel, not on_sel)
+        else:
+            n = markings.set_markings(o, list(marks), list(sels))
+            exp, must_raise = (pairs - on_sel) | req, had_any and not on_sel
+    except MarkingNotFoundError:
+        if op == 1:
+            return o, pairs, had_any and not (req & pairs)
+        return o, pairs, op in (2, 3) and had_any and not on_sel
+    return n, exp, not must_raise
+
+
+def seq_multi(s1: int, m1: int, o2: int, sa: int, sb: int, m2: int, two: bool, form: int) -> bool:
+    """
+    pre: 0 <= s1 < NP and s1 == PARTNO and 0 <= m1 < 2 and 0 <= o2 < 4 and 0 <= sa < 5 and 0 <= sb < 5 and sa != sb and 0 <= m2 < 2 and 0 <= form < 2
+    post: _
+    """
+    s1, m1, o2, sa, sb, m2, two, form = pick(s1, NP), pick(m1, 2), pick(o2, 4), pick(sa, 5), pick(sb, 5), pick(m2, 2), pickb(two), pick(form, 2)
+    with Native():
+        ok = run_multi(s1, m1, o2, sa, sb, m2, two, form)
+    V.reached()
+    return ok
+
+
+def run_multi(s1, m1, o2, sa, sb, m2, two, form):
+    """add one pair, then one operation naming two selectors (and one or two markings): the result is the set-model result, i.e. the same as
+    doing the operation pair by pair; queries agree afterwards"""
+    saved = versioning.get_timestamp
+    versioning.get_timestamp = _clock
+    try:
+        o = start(form, None)
+        first = (0, 2)[m1]
+        o, pairs, omarks, ok = apply_op(o, set(), set(), 0, s1, first)
+        if not ok:
+            return False
+        sels = [PATHS[(0, 1, 3, 7, 8)[sa]], PATHS[(0, 1, 3, 7, 8)[sb]]]
+        marks = [MARKS[(0, 2)[m2]]] + ([MARKS[1]] if two else [])
+        snap = repr(o)
+        n, exp, ok = apply_multi(o, pairs, o2, sels, marks)
+        if not ok or repr(o) != snap:
+            return False
+        if n is not o:
+            stix2.parse(dict(n), allow_custom=False)
+        return check_queries(n, exp, omarks)
+    finally:
+        versioning.get_timestamp = saved
+
+
 PAIRS = [(a, b) for a in range(NP) for b in range(a + 1, NP)]       # 36 selector pairs
 NPAIR = len(PAIRS)
 
